@@ -3,12 +3,12 @@
    sumbool, sumor -> native OCaml types); N / positive / nat stay as the
    extracted inductive datatypes. *)
 From Coq Require Import Extraction ExtrOcamlBasic.
-From Resolvo Require Import Spec.Oracle Cdcl.CheckRun Async.History Conflict.GraphCheck Async.Encoder.
+From Resolvo Require Import Spec.Oracle Cdcl.CheckRun Async.History Conflict.GraphCheck Conflict.GraphBuild Async.Encoder.
 Extraction Language OCaml.
 Extraction "oracle.ml" table_provider mkU mkSol mkVs mkPkg mkProblem
   o_valid o_supported o_solvable o_greedy o_explicit_first o_soft_expect
   mkLog mkCl check_db check_run check_sat_log check_sat_log_lenient check_unsat_log facts_ok learnts_ok wf_universeb
   factb db_idx learnt_okb rup
   causalb onceb exactb eagerb cancel_quietb
-  mkGraph truthfulb reachableb refutesb check_core
+  mkGraph truthfulb reachableb refutesb check_core check_graph_build build_graph core_clauses
   check_encoder check_encoder_final enc_run fifo_ok estate0 cache0.
